@@ -180,6 +180,11 @@ def _run(plan, ctx):
                     try:
                         got = sigs[k](a, n)
                     except Exception as e:
+                        if k == "sma" and not h:
+                            # the mean of no observation is not defined by the property (NaN, or an error when the
+                            # host has numpy raise on invalid operations)
+                            ctx.probe("sma_without_observation_raised:" + type(e).__name__)
+                            continue
                         ctx.violate("C16", "signal_query_raised", {"signal": k, "asset": a, "lookback": n,
                                                                   "n_obs": len(h), "exc": repr(e)[:200]})
                         return
